@@ -103,7 +103,18 @@ Record command := mkC { c_name : option bytes; c_base : option bytes; c_methods 
 Record summary := mkS { s_name : bytes; s_fields : list ufield }.
 (* q_list_settings: the query block carries listRequest / eventsListRequest settings *)
 Record query := mkQ { q_events_in_get : bool; q_default_status : list bytes; q_list_settings : bool }.
-Record entity := mkE12 {
+(* descriptions of the elements that are not fields, by position (a missing entry = none): of the
+   events (leading comment of the nested message <X>EventType.<Event>), of the statuses (comment of
+   the enum value), of the schemas of the block (comment of the message / enum) and of the options of
+   the block's enums.  The `description` of the entity itself, of a command, of a method and of a
+   summary is accepted by the parser and appears nowhere in the output (the generator writes them; the
+   model ignores them; the compared output has no comment for them) *)
+Record enotes := mkN {
+  n_event_desc : list bytes; n_status_desc : list bytes;
+  n_schema_desc : list bytes; n_option_desc : list (list bytes) }.
+Definition no_notes : enotes := mkN [] [] [] [].
+
+Record entity := mkE13 {
   e_pkg : bytes;                              (* dotted package name *)
   e_name : bytes;
   e_base_url : bytes;                         (* "" = default *)
@@ -115,9 +126,11 @@ Record entity := mkE12 {
   e_summaries : list summary;
   e_query : option query;
   e_schemas : list eschema;
-  e_status_num : list N }.                   (* the `number` a status declares, in order; 0 / missing = none *)
+  e_status_num : list N;                     (* the `number` a status declares, in order; 0 / missing = none *)
+  e_notes : enotes }.
+Notation mkE12 p n b k d s ev c su q sc sn := (mkE13 p n b k d s ev c su q sc sn no_notes) (only parsing).
 (* a declaration whose statuses declare no numbers *)
-Notation mkE p n b k d s ev c su q sc := (mkE12 p n b k d s ev c su q sc []) (only parsing).
+Notation mkE p n b k d s ev c su q sc := (mkE13 p n b k d s ev c su q sc [] no_notes) (only parsing).
 
 (* ---- what is emitted ------------------------------------------------------- *)
 Inductive otype :=
